@@ -13,6 +13,7 @@ import (
 	"runtime"
 	"strings"
 	"sync"
+	"sync/atomic"
 	"syscall"
 	"time"
 )
@@ -374,24 +375,38 @@ func (f *Farm) Close() {
 }
 
 // FreePort finds a currently free port on ip for both UDP and TCP (bind-and-release).
+// FreePort returns a port that is free for UDP and TCP on ip. The port is taken from BELOW the range the operating system
+// assigns to outgoing sockets (read from /proc; 10000..32767 by default): a port from that range could be handed to an
+// unrelated socket of any process on the machine the moment it is released, and "the address can be bound again" would then
+// fail for reasons that have nothing to do with the library.
 func FreePort(ip [4]byte) (uint16, error) {
-	for i := 0; i < 50; i++ {
-		c, err := net.ListenUDP("udp4", &net.UDPAddr{IP: net.IP(ip[:]), Port: 0})
-		if err != nil {
-			return 0, err
+	lo, hi := 10000, 32767
+	if b, err := os.ReadFile("/proc/sys/net/ipv4/ip_local_port_range"); err == nil {
+		var a, z int
+		if n, _ := fmt.Sscanf(string(b), "%d %d", &a, &z); n == 2 && a > 12000 {
+			hi = a - 1
 		}
-		port := c.LocalAddr().(*net.UDPAddr).Port
+	}
+	for i := 0; i < 200; i++ {
+		port := lo + int((portCounter.Add(7919)+uint64(os.Getpid())*104729+uint64(time.Now().UnixNano()>>10))%uint64(hi-lo))
+		c, err := net.ListenUDP("udp4", &net.UDPAddr{IP: net.IP(ip[:]), Port: port})
+		if err != nil {
+			if i > 150 {
+				return 0, err
+			}
+			continue
+		}
 		l, err := net.ListenTCP("tcp4", &net.TCPAddr{IP: net.IP(ip[:]), Port: port})
 		c.Close()
 		if err == nil {
 			l.Close()
-			if port != 60000 {
-				return uint16(port), nil
-			}
+			return uint16(port), nil
 		}
 	}
 	return 0, fmt.Errorf("no free port on %v", ip)
 }
+
+var portCounter atomic.Uint64
 
 // FreePortAt reports whether `port` is free (UDP and TCP) on ip; it returns the port if so.
 func FreePortAt(ip [4]byte, port uint16) (uint16, error) {
